@@ -191,5 +191,32 @@ def run(ctx):
     ]
 
 
-# MUTANTS (scratch worktree /tmp/wt-c17, quick tier, hook H4 applied unless noted):
-#   see the list appended after mutation testing
+# MUTANTS (scratch worktree /tmp/wt-c17 = /repo HEAD [+ hooks/H4-position-cursors.patch]; quick tier,
+# trace stage — the model stage does not read /repo; every run: VIOLATION + exit 1 unless noted):
+#   M1  advance_positions.rs get_sequential: `cursor.ib_ones_before = k - rem` -> `k`
+#         hook: caught (event 12, cursor invariant ib_ones_before)   no hook: caught (event 10, wrong start)
+#   M2  advance_positions.rs advance_cursor_to: adv_cumulative not refreshed (stale rank after a forward gap)
+#         caught (event 6, wrong start)          [DESIGN's "forgets next_open_idx" is an equivalent mutant:
+#         get_sequential overwrites next_open_idx unconditionally]
+#   M3  end_positions.rs Dense get: `.filter(pos > 0)` dropped (Some(0) for a node without an end)
+#         caught (event 372: 0 is neither None nor a recorded end)
+#   M4  advance_positions.rs get_random: cursor re-seeded with ib_word_idx 0 but the real ib_ones_before
+#         hook: caught (event 384, invariant)    no hook: caught (event 373, wrong start after a backward jump)
+#   M5  end_positions.rs get_sequential: `cursor.ib_ones_before = k - remaining` -> `k`
+#         hook: caught (event 27)                no hook: caught (event 319, wrong end)
+#   M6  advance_positions.rs get: forward-gap arm calls get_sequential without advance_cursor_to
+#         caught (event 6)
+#   M7  advance_positions.rs ib_select1_with_state: `skip_ones - prefix_ones` -> `skip_ones` (stale ones_before
+#         handed to the cursor by get_random; needs > 256 distinct positions and a sample bit inside a word)
+#         hook: caught (event 832, invariant at open 257)   no hook: caught (event 2950, wrong start, family
+#         sample-boundary)
+#   M8  advance_positions.rs OpenPositions::build: monotonic test `<=` -> `<` (duplicates force Dense)
+#         hook: caught (event 107, variant tag: Dense where the documentation promises Compact);
+#         without the hook this mutant is not observable through the accessors (Dense answers are right)
+#   M9  end_positions.rs try_build: monotonicity check lets a dip of exactly 1 through (`pos + 1 < prev`)
+#         first MISSED (no generated table had a single small inversion) -> family "near-mono" added ->
+#         hook: caught (event 1039, variant tag)   no hook: caught (event 1040, wrong end in a near-mono table)
+#   M10 end_positions.rs try_build: zero-fill takes the NEXT node's end instead of the previous one
+#         hook: caught (event 50: inherited end is not an earlier node's)   no hook: caught (event 23)
+#   M11 advance_positions.rs get_sequential: duplicate fast path also taken for k = last_ib_arg + 1 when k % 7 == 3
+#         caught (event 12)
